@@ -99,6 +99,9 @@ def from_xir(xir_prog: xir.Program) -> Program:
             else:
                 raise NameError(f"Quantum operation {op.name!r} not defined!")
 
+            if op.is_inverse:
+                gate = _inverse(gate)
+
             # create the list of regrefs
             regrefs = [q[i] for i in op.wires]
 
@@ -177,6 +180,9 @@ def from_xir_to_tdm(xir_prog: xir.Program) -> TDMProgram:
                 gate = getattr(ops, op.name)
             else:
                 raise NameError(f"Quantum operation {op.name!r} not defined!")
+
+            if op.is_inverse:
+                gate = _inverse(gate)
 
             # create the list of regrefs
             regrefs = [q[int(i)] for i in op.wires]
@@ -311,10 +317,20 @@ def to_xir(prog: Program, **kwargs) -> xir.Program:
                     a = _listr(a)
                 params.append(a)
 
-        op = xir.Statement(name, params, wires)
+        # the ``inv`` modifier of XIR carries the dagger flag of gates
+        op = xir.Statement(name, params, wires, inverse=bool(getattr(cmd.op, "dagger", False)))
         xir_prog.add_statement(op)
 
     return xir_prog
+
+
+def _inverse(gate):
+    """Returns a constructor of the inverse (``.H``) of the gate class ``gate``."""
+
+    def constructor(*args, **kwargs):
+        return gate(*args, **kwargs).H
+
+    return constructor
 
 
 def _listr(mixed_iterable: Iterable) -> List:
